@@ -415,7 +415,6 @@ package node
 //@   loop 1 invariant -1 <= rangeindex && rangeindex < len(segments) && p != nil && solid(p.Meta)
 //@   loop 1 invariant forall k int :: 0 <= k && k < len(path) ==> path[k] != nil && preexisting(path[k]) == false
 //@   loop 1 invariant forall k int :: 0 <= k && k < len(path) ==> solid(path[k].Meta)
-//@   loop 1 invariant forall k int :: 0 <= k && k < len(path) ==> (len(path[k].Key) > 0 ==> dyn(path[k].Meta) == *meta.List)
 //@   loop 1 invariant fresh(path)
 //@   loop 1 decreases len(segments) - rangeindex
 //@   loop 2 invariant -1 <= rangeindex$2
@@ -424,7 +423,7 @@ package node
 //@   loop 2 decreases len(keyStrs) - rangeindex$2
 //@   callsite Split: arg1 == "," ==> arg0 === segment[equalsMark+1:]
 //@   callsite Split: arg1 == "/" ==> arg0 === pathStr
-//@   ensures result1 == nil ==> (forall k int :: 0 <= k && k < len(result0) ==> result0[k] != nil && solid(result0[k].Meta) && (len(result0[k].Key) > 0 ==> dyn(result0[k].Meta) == *meta.List))
+//@   ensures result1 == nil ==> (forall k int :: 0 <= k && k < len(result0) ==> result0[k] != nil && solid(result0[k].Meta))
 
 // ---- C12: the edit protocol seen by node implementations (ghost bookkeeping) ---------------------------------
 // open:     BeginEdit calls that returned nil, minus EndEdit calls
@@ -723,10 +722,10 @@ package node
 //@   mode int
 //@   property C08 C13
 //@   requires wfS(sel) && !failed
-//@   requires forall k int :: 0 <= k && k < len(segs) ==> segs[k] != nil && solid(segs[k].Meta) && (len(segs[k].Key) > 0 ==> dyn(segs[k].Meta) == *meta.List)
+//@   requires forall k int :: 0 <= k && k < len(segs) ==> segs[k] != nil && solid(segs[k].Meta)
 //@   assigns open, failed, nodeWrites, writesAfterFail, nonNavChecks, sel.Constraints.compiled
 //@   loop 1 invariant 0 <= i && i <= len(segs) && wfS(p) && tail != nil && p.Constraints == sel.Constraints
-//@   loop 1 invariant forall k int :: 0 <= k && k < len(segs) ==> segs[k] != nil && solid(segs[k].Meta) && (len(segs[k].Key) > 0 ==> dyn(segs[k].Meta) == *meta.List)
+//@   loop 1 invariant forall k int :: 0 <= k && k < len(segs) ==> segs[k] != nil && solid(segs[k].Meta)
 //@   loop 1 invariant nodeWrites == old(nodeWrites) && nonNavChecks == old(nonNavChecks) && open == old(open) && !failed
 //@   loop 1 decreases len(segs) - i
 //@   ensures nodeWrites == old(nodeWrites) && nonNavChecks == old(nonNavChecks) && open == old(open)
